@@ -40,6 +40,7 @@ func checkC20(r *core.Run) {
 		c20Table(r, p, sfx, arch == "386")
 		c20ClassIndex(r, p, sfx)
 		c20Retire(r, p, sfx)
+		c20LiveCount(r, p, sfx)
 		if arch == "" {
 			c20Req(r, p)
 			c20Links(r, p)
@@ -790,4 +791,96 @@ func c20Retire(r *core.Run, p *core.Program, sfx string) {
 		}
 	}
 	r.Check(ok, rule, "defrag/bump-page-retired"+sfx, p.Pos(fn.Pos()), "a page being evacuated stops being the current bump page before the first move", why)
+}
+
+// c20LiveCount: the counter of live allocations moves by +1 exactly once on every path on which Malloc hands
+// out memory (shared slot or private mapping alike) and by -1 exactly once on every path through Free and
+// its uintptr twin; no other function touches it (the defragmenter relocates without changing the number of
+// live allocations).
+func c20LiveCount(r *core.Run, p *core.Program, sfx string) {
+	const rule = "R-C20-sym"
+	type site struct {
+		fn    *ssa.Function
+		ins   ssa.Instruction
+		delta string
+	}
+	var sites []site
+	for _, fn := range p.ModuleFuncs() {
+		for _, c := range an.CallsTo(fn, false, "(*sync/atomic.Int64).Add") {
+			a := c.Common().Args
+			fa, ok := a[0].(*ssa.FieldAddr)
+			if !ok {
+				continue
+			}
+			if f, _ := an.FieldOf(fa); f != c20Pkg+".Allocator.Allocs" {
+				continue
+			}
+			sites = append(sites, site{fn, c.(ssa.Instruction), an.Expr(a[1])})
+		}
+	}
+	want := map[string]string{"(*" + c20Pkg + ".Allocator).Malloc": "1", "(*" + c20Pkg + ".Allocator).Free": "-1", "(*" + c20Pkg + ".Allocator).uintptrFree": "-1"}
+	var bad []string
+	per := map[string][]site{}
+	for _, s := range sites {
+		n := core.FuncName(s.fn)
+		if want[n] != s.delta {
+			bad = append(bad, fmt.Sprintf("%s changes the live-allocation counter by %s at %s", n, s.delta, p.Pos(an.InstrPos(s.ins))))
+			continue
+		}
+		per[n] = append(per[n], s)
+	}
+	reaches := func(from, to *ssa.BasicBlock) bool {
+		seen := map[*ssa.BasicBlock]bool{}
+		st := []*ssa.BasicBlock{from}
+		for len(st) > 0 {
+			b := st[len(st)-1]
+			st = st[:len(st)-1]
+			if seen[b] {
+				continue
+			}
+			seen[b] = true
+			if b == to {
+				return true
+			}
+			st = append(st, b.Succs...)
+		}
+		return false
+	}
+	nret := 0
+	for n := range want {
+		fn := p.Func(c20Pkg + ".(*Allocator)." + n[strings.LastIndex(n, ".")+1:])
+		if fn == nil {
+			bad = append(bad, n+" not found")
+			continue
+		}
+		for _, b := range fn.Blocks {
+			ret, ok := b.Instrs[len(b.Instrs)-1].(*ssa.Return)
+			if !ok {
+				continue
+			}
+			if want[n] == "1" {
+				if len(ret.Results) != 1 {
+					continue
+				}
+				if k, isC := ret.Results[0].(*ssa.Const); isC && k.Value == nil {
+					continue // nothing handed out
+				}
+			}
+			nret++
+			dom, other := 0, 0
+			for _, s := range per[n] {
+				sb := s.ins.Block()
+				if sb == b || sb.Dominates(b) {
+					dom++
+				} else if reaches(sb, b) {
+					other++
+				}
+			}
+			if dom != 1 || other != 0 {
+				bad = append(bad, fmt.Sprintf("on the way to the return at %s of %s the counter is changed %d time(s) on every path and %d time(s) on some paths (expected: exactly once)", p.Pos(ret.Pos()), n[strings.LastIndex(n, ".")+1:], dom, other))
+			}
+		}
+	}
+	sort.Strings(bad)
+	r.Check(len(bad) == 0 && nret >= 4, rule, "live-count"+sfx, "-", fmt.Sprintf("%d counter updates in Malloc/Free/uintptrFree; %d returns checked, each passes exactly one update of the right sign", len(sites), nret), strings.Join(bad, "; "))
 }
